@@ -148,6 +148,8 @@ func checkC11(p *load.Program, r *kit.Report) {
 	r.Rule("CONST-TABLE", "headerDataSerializeSize equals 80 (wire block header) + 32 (work) and is the record size used by getData, loadHistoricalHashHeights and saveMainBranch's byte offset", 2)
 	r.Rule("HEIGHT-LABEL", "labels written while loading (LoadBranch, Reload, loadBranchHashHeights, loadHistoricalHashHeights) equal positional heights", 4)
 	r.Rule("ORDER", "load selects the tip from the branch list in stored order, before re-sorting it for linking (ties of accumulated work are broken by position); the hashes of a loaded branch enter the long-lived height map only when the branch is kept", 2)
+	r.Rule("RESTORE-REGISTERS", "every function below Load that installs branches read from storage (load, migrate) enters their hashes into Repository.heights before it returns success; initializeWithGenesis installs only the genesis header, which the constructor registers", 3)
+	checkRestoreRegisters(p, r, "RESTORE-REGISTERS")
 	r.Rule("COVER-ALL", "loadHistoricalHashHeights starts at the file that holds the height right below the main branch's lowest in-memory height (every best-chain hash below the in-memory part gets its height back)", 1)
 	r.Rule("MUST-PASS", "saveInvalidHashes writes its key on every successful path (an emptied list replaces the stored one)", 1)
 	r.Rule("MAIN-FILE-SHAPE", "saveMainBranch starts in file lowest/headersPerFile at byte (lowest - file·headersPerFile)·recordSize + 1 (version byte), keeps exactly that prefix of the stored file, rolls over to file+1 every headersPerFile heights; readers (C09) use the same constants", 3)
@@ -912,4 +914,124 @@ func checkConfigMerge(p *load.Program, r *kit.Report, rule string, f *ssa.Functi
 		bad = "the append of a configured hash is not reachable when no listed hash equals it"
 	}
 	r.Check(bad == "", rule, key, posOf(p, ap), "each configured hash without an equal in the list is appended in its own iteration", bad)
+}
+
+// checkRestoreRegisters: the functions that rebuild the branch tree from storage (everything Load
+// reaches that stores Repository.branches: load, migrate) must also enter the hashes of what they
+// install into the long-lived hash→height map. While the headers are in memory the branches answer
+// for them; once clean prunes them, that map is the only way a by-hash lookup finds a best-chain
+// header (until the next restart re-reads the files).
+func checkRestoreRegisters(p *load.Program, r *kit.Report, rule string) {
+	branchesF := p.Field(H, "Repository", "branches")
+	heightsF := p.Field(H, "Repository", "heights")
+	root := p.Func(H, "Repository.Load")
+	if branchesF == nil || heightsF == nil || root == nil {
+		r.Unknown(rule, "Load/restore-registers-heights", "-", "anchors not found")
+		return
+	}
+	funcs := pkgFuncs(p, H)
+	// functions that write the height map (directly or through callees)
+	writes := map[*ssa.Function]bool{}
+	for _, g := range funcs {
+		for _, w := range kit.DirectWrites(g) {
+			if w.Field == heightsF && w.Kind == "mapupdate" {
+				writes[g] = true
+			}
+		}
+	}
+	for changed := true; changed; {
+		changed = false
+		for _, g := range funcs {
+			if writes[g] {
+				continue
+			}
+			kit.AllInstrs(g, func(in ssa.Instruction) {
+				if c, ok := in.(ssa.CallInstruction); ok {
+					if sc := kit.StaticCallee(c); sc != nil && writes[sc] && !writes[g] {
+						writes[g] = true
+						changed = true
+					}
+				}
+			})
+		}
+	}
+	reach := staticReach(root)
+	n := 0
+	for g := range reach {
+		if g == root || strings.HasPrefix(p.FileOf(g.Pos()), "headers/test_helpers.go") {
+			continue
+		}
+		var stores []ssa.Instruction
+		for _, w := range kit.DirectWrites(g) {
+			if w.Field == branchesF && w.Kind == "store" && !kit.IsNilConst(w.Val) {
+				stores = append(stores, w.Instr)
+			}
+		}
+		if len(stores) == 0 {
+			continue
+		}
+		name := kit.ShortID(kit.FuncID(g))
+		// a function that only ever installs the genesis header: its hash is registered by the
+		// constructor (C10 GUARD-DOM NewRepository/genesis-height-registered)
+		genesisOnly := true
+		nb := 0
+		for _, c := range kit.CallsTo(g, H+".NewBranch") {
+			nb++
+			args := c.Common().Args
+			if !kit.DependsOn(args[len(args)-1], func(v ssa.Value) bool {
+				cc, ok := v.(*ssa.Call)
+				return ok && kit.CallID(cc) == H+".genesisHeader"
+			}) {
+				genesisOnly = false
+			}
+		}
+		if nb > 0 && genesisOnly && len(kit.CallsTo(g, H+".Branch.Add")) == 0 && len(kit.CallsTo(g, H+".LoadBranch")) == 0 {
+			r.OK(rule, name+"/registers-heights", posOf(p, stores[0]), "installs the genesis header only (registered by the constructor)")
+			n++
+			continue
+		}
+		var regs []ssa.Instruction
+		kit.AllInstrs(g, func(in ssa.Instruction) {
+			if mu, ok := in.(*ssa.MapUpdate); ok {
+				if fl, _ := kit.LoadedField(mu.Map); fl == heightsF {
+					regs = append(regs, in)
+				}
+			}
+			if c, ok := in.(ssa.CallInstruction); ok {
+				if sc := kit.StaticCallee(c); sc != nil && writes[sc] {
+					regs = append(regs, in)
+				}
+			}
+		})
+		bad := ""
+		pre := kit.Reach(g, []kit.Pt{kit.Entry(g)}, kit.Opts{StopAt: kit.InstrSet(regs...)})
+		for _, st := range stores {
+			if !pre.Has(st) {
+				continue // every path to this store registered heights before
+			}
+			post := kit.Reach(g, kit.After(st), kit.Opts{StopAt: kit.InstrSet(regs...)})
+			for _, ret := range kit.Returns(g) {
+				if !post.Has(ret) || post.ErrClass(ret) == kit.ErrNonNil {
+					continue
+				}
+				// delegated to another restore function (`return repo.initializeWithGenesis()`)
+				if c := callOf(kit.RetOperand(ret, 0), 0); c != nil {
+					if sc := kit.StaticCallee(c); sc != nil && reach[sc] {
+						continue
+					}
+				}
+				if c, ok := kit.RetOperand(ret, 0).(*ssa.Call); ok {
+					if sc := kit.StaticCallee(c); sc != nil && reach[sc] {
+						continue
+					}
+				}
+				bad = name + " installs branches read from storage (" + posOf(p, st) + ") and can return success (" + posOf(p, ret) + ") without entering their hashes into Repository.heights: once these headers are pruned from memory they are unknown by hash although they are on the best chain"
+			}
+		}
+		n++
+		r.Check(bad == "", rule, name+"/registers-heights", posOf(p, stores[0]), "the restored branches' hashes are registered in the height map on every successful path", bad)
+	}
+	if n < 2 {
+		r.Unknown(rule, "Load/restore-registers-heights", "-", "expected at least 2 restore functions below Load that install branches, found %d", n)
+	}
 }
